@@ -57,7 +57,8 @@ def cases(tier, seed):
     nr = 60 if tier == 'quick' else 600
     for i in range(nr):
         cs.append({'kind': 'reuse', 'prog_seed': seed * 31 + i, 'family': '1d' if i % 2 else '2d',
-                   'same': i % 4 < 2, 'mask_mode': modes[i % 3], 'spec': 'dict', 'fold': False,
+                   'same': i % 4 < 2, 'mask_mode': modes[i % 3], 'spec': 'dict',
+                   'fold': (i // 4) % 2 == 1,
                    'time_style': 'binary', 'full_cost': i % 3 == 0, 'seed': seed * 7 + i})
     return cs
 
@@ -119,7 +120,8 @@ def rel_ok(got, want, tol=1e-6):
 def run_case(case, ctx):
     rng = random.Random(case['prog_seed'])
     if case['kind'] == 'reuse':
-        prog = pitgen.reuse_program(rng, case['family'], case['same'])
+        prog = pitgen.reuse_program(rng, case['family'], case['same'],
+                                    with_bn=case['seed'] % 2 == 0)
     else:
         prog = pitgen.gen_valid_program(rng, family=case['family'],
                                         opts={'p_fixed_stem': 0.3, 'allow_fixed': True,
